@@ -6,6 +6,7 @@ import (
 	"fmt"
 	"io"
 	"runtime"
+	"strings"
 	"sync"
 	"time"
 
@@ -260,6 +261,12 @@ func (tempError) Error() string   { return "simulated device: resource temporari
 func (tempError) Temporary() bool { return true }
 func (tempError) Timeout() bool   { return true }
 
+// errList is a custom error whose dynamic type is a slice (like
+// go/scanner.ErrorList): it can be neither compared nor hashed.
+type errList []string
+
+func (e errList) Error() string { return "simulated device: " + strings.Join(e, "; ") }
+
 // ErrWrappedEOF is a custom error that wraps io.EOF (errors.Is(err, io.EOF) holds, err == io.EOF does not).
 var ErrWrappedEOF = fmt.Errorf("simulated device: stream closed by peer: %w", io.EOF)
 
@@ -273,6 +280,8 @@ func (s *SimSource) faultErr() error {
 		return ErrWrappedEOF
 	case "temporary":
 		return tempError{}
+	case "listerr":
+		return errList{"fifo underrun", "device reset"}
 	default:
 		return ErrDevice
 	}
